@@ -107,6 +107,8 @@ FEATURES = [
     ('/r/w/base/sub/deep.tex', F), ('/r/w/base/sub.tex', F),
     ('/r/w/base-evil/x.tex', F), ('/r/w/base-evil/in.tex', F), ('/r/w/base.tex', F), ('/r/w/base.latex', F),
     ('/r/w/basement/x.tex', F), ('/r/w/bas/x.tex', F), ('/r/w/bas.tex', F),
+    # a sibling whose name is the base name followed by a character that is a separator elsewhere (not on POSIX)
+    ('/r/w/base\\old/x.tex', F), ('/r/w/base/lbs.tex', lambda: L('../base\\old/x.tex')), ('/r/w/base:x/y.tex', F),
     ('/r/w/secret.tex', F), ('/r/w/out/o.tex', F), ('/r/w/out/in.tex', F), ('/r/other/z.tex', F), ('/top.tex', F),
     # links inside base pointing out
     ('/r/w/base/lnk.tex', lambda: L('../secret.tex')), ('/r/w/base/lnk2.latex', lambda: L('../out/o.tex')),
@@ -160,6 +162,9 @@ def std_layout(rnd, density):
 MINIMAL = [
     # F7a: sibling directory whose name extends the base name
     ({'w': {'base': {'in.tex': F()}, 'base-evil': {'x.tex': F()}}}, '/w/base', ['../base-evil/x.tex', '../base-evil/x', 'in', '../base/in.tex']),
+    # the same with a backslash / colon as the extending character
+    ({'w': {'base': {'in.tex': F(), 'lb.tex': L('../base\\x/s.tex')}, 'base\\x': {'s.tex': F()}, 'base:y': {'t.tex': F()}}}, '/w/base',
+     ['../base\\x/s.tex', '../base\\x/s', 'lb', 'lb.tex', '/w/base\\x/s.tex', '../base:y/t', 'in']),
     # F7a': sibling FILE whose name extends the base name
     ({'w': {'base': {}, 'base.tex': F(), 'base-x': F()}}, '/w/base', ['../base.tex', '../base-x', '../base', '.']),
     # F7b: only the extended name exists and it is a link to an outside file
